@@ -113,7 +113,18 @@ pub struct FrontState {
     pub settings_cache: Mutex<BTreeMap<u64, Vec<u8>>>,
     /// a genuine 550 reply of POST /register-signer
     pub round_not_open_reply: Mutex<Option<Vec<u8>>>,
+    /// what the aggregator announced in its genuine 200 replies of /epoch-settings since the last
+    /// drain: (epoch of the reply, its `signer_registration_protocol` = the protocol parameters of the
+    /// registration round of that epoch)
+    pub announcements: Mutex<Vec<(u64, Value)>>,
     pub seq: AtomicU64,
+}
+
+/// (epoch, registration protocol parameters) of a genuine /epoch-settings reply
+pub fn announcement_of(body: &[u8]) -> Option<(u64, Value)> {
+    let v: Value = serde_json::from_slice(body).ok()?;
+    let e = v["epoch"].as_u64()?;
+    Some((e, v["signer_registration_protocol"].clone()))
 }
 
 impl FrontState {
@@ -125,6 +136,7 @@ impl FrontState {
             agg_down: AtomicBool::new(false),
             settings_cache: Mutex::new(BTreeMap::new()),
             round_not_open_reply: Mutex::new(None),
+            announcements: Mutex::new(vec![]),
             seq: AtomicU64::new(0),
         })
     }
@@ -139,6 +151,10 @@ impl FrontState {
 
     pub fn drain(&self) -> Vec<HttpEvent> {
         std::mem::take(&mut *self.log.lock().unwrap())
+    }
+
+    pub fn drain_announcements(&self) -> Vec<(u64, Value)> {
+        std::mem::take(&mut *self.announcements.lock().unwrap())
     }
 
     fn take_fault(&self, signer: Option<usize>, kind: ReqKind) -> Option<FaultKind> {
@@ -237,6 +253,7 @@ impl FrontState {
             if let Ok(v) = serde_json::from_slice::<Value>(&rbody) {
                 if let Some(e) = v["epoch"].as_u64() {
                     self.settings_cache.lock().unwrap().insert(e, rbody.clone());
+                    self.announcements.lock().unwrap().push((e, v["signer_registration_protocol"].clone()));
                 }
             }
         }
